@@ -65,6 +65,9 @@ Proof. repeat split. Qed.
 Example run_write : write t223 =
   Some [E 0; Sp; E 1; Sp; E 2; Nl; E 3; Sp; E 4; Sp; E 5; Nl; Nl; E 6; Sp; E 7; Sp; E 8; Nl; E 9; Sp; E 10; Sp; E 11]%Z.
 Proof. reflexivity. Qed.
+Example run_nested : nested [2; 2; 3] (data t223) =
+  [E 0; Sp; E 1; Sp; E 2; Nl; E 3; Sp; E 4; Sp; E 5; Nl; Nl; E 6; Sp; E 7; Sp; E 8; Nl; E 9; Sp; E 10; Sp; E 11]%Z.
+Proof. reflexivity. Qed.
 Example run_write_rank0 : write t0 = Some [E 7%Z].
 Proof. reflexivity. Qed.
 Example run_write_rank1 : write (mk [3] [1; 2; 3]%Z) = Some [E 1; Sp; E 2; Sp; E 3]%Z.
